@@ -123,6 +123,7 @@ type VCtx struct {
 	atomicCount int
 	lastAtomicRet Val
 	curFrame  *Frame
+	rootFrame *Frame // the function under verification
 	pointsHit map[string]bool
 	curSelectChans []*Term
 	curSelectBlocking bool
@@ -398,7 +399,7 @@ func (c *VCtx) heap(st *State, name string, sort Sort) *Term {
 // heapWellFormed: every reference stored in an unconstrained heap version denotes an object that already
 // exists at that moment (so objects allocated later are different from everything reachable now).
 func (c *VCtx) heapWellFormed(st *State, name string, h *Term) {
-	if name == "G:alloc" || strings.HasPrefix(name, "M:") {
+	if name == "G:alloc" || (strings.HasPrefix(name, "M:") && !strings.HasPrefix(name, "M:val:")) {
 		return
 	}
 	if strings.HasPrefix(name, "G:") {
@@ -432,6 +433,12 @@ func (c *VCtx) heapWellFormed(st *State, name string, h *Term) {
 		c.defFact(h, T(SBool, fmt.Sprintf("(forall ((r Ref)) (! %s :pattern ((select %s r))))", okRef(fmt.Sprintf("(select %s r)", h.S)), h.S)))
 	case v == SSlice:
 		c.defFact(h, T(SBool, fmt.Sprintf("(forall ((r Ref)) (! %s :pattern ((select %s r))))", okRef(fmt.Sprintf("(s-arr (select %s r))", h.S)), h.S)))
+	case strings.HasPrefix(name, "M:val:") && strings.HasPrefix(string(v), "(Array "):
+		// the values stored in maps are existing objects
+		js, vs := arrParts(v)
+		if vs == SRef {
+			c.defFact(h, T(SBool, fmt.Sprintf("(forall ((r Ref) (j %s)) (! %s :pattern ((select (select %s r) j))))", js, okRef(fmt.Sprintf("(select (select %s r) j)", h.S)), h.S)))
+		}
 	case v == ArrSort(SInt, SRef):
 		c.defFact(h, T(SBool, fmt.Sprintf("(forall ((r Ref) (i Int)) (! %s :pattern ((select (select %s r) i))))", okRef(fmt.Sprintf("(select (select %s r) i)", h.S)), h.S)))
 	case v == ArrSort(SInt, SSlice):
@@ -660,6 +667,7 @@ func cellHeapName(es Sort) string { return "C:" + string(es) }
 // ---------- frames ----------
 
 type Frame struct {
+	lastIter *Term // iterator of the most recently entered range-over-map loop
 	ctx      *VCtx
 	fn       *ssa.Function
 	env      map[ssa.Value]Val
@@ -1062,6 +1070,9 @@ func (c *VCtx) execFunction(fr *Frame, st *State) (*State, Val) {
 		unsup("inlining depth exceeded at %s", fn)
 	}
 	fr.entry = st.clone()
+	if fr.top && c.rootFrame == nil {
+		c.rootFrame = fr
+	}
 	if fr.contract != nil && len(fr.contract.Assumes) > 0 {
 		var args []Val
 		for _, p := range fn.Params {
